@@ -4,8 +4,10 @@
 package qa
 
 import (
+	"context"
 	"strconv"
 	"strings"
+	"time"
 
 	"github.com/pinealctx/neptune/queue/priq"
 	"github.com/pinealctx/neptune/queue/syncq"
@@ -28,6 +30,7 @@ type Act struct {
 	Kind  string `json:"kind"`
 	Ccap  int    `json:"ccap"`
 	Rcap  int    `json:"rcap"`
+	Bg    bool   `json:"bg"` // waitclose / waitclear: live context (false: a context that has ended)
 }
 
 // PlanLine is one line of a TLC-generated plan.
@@ -44,6 +47,10 @@ func (a Act) Rec() tr.E {
 		return tr.E{"op": a.Op, "any": a.Any}
 	case "push":
 		return tr.E{"op": a.Op, "v": a.V, "pr": a.Pr}
+	case "addw":
+		return tr.E{"op": a.Op, "lane": a.Lane, "v": a.V}
+	case "waitclose", "waitclear":
+		return tr.E{"op": a.Op, "bg": a.Bg}
 	}
 	return tr.E{"op": a.Op}
 }
@@ -100,6 +107,55 @@ func itemReply(x interface{}) tr.E {
 	return Rp("foreign", 0)
 }
 
+// keepT lets a harness keep every item a call handed out AS RETURNED (the very interface value) and
+// decode it again later: a popped item must stay what it was.
+type keepT struct{ keep func(interface{}) }
+
+// SetKeep installs the sink for returned items.
+func (k *keepT) SetKeep(f func(interface{})) { k.keep = f }
+
+func (k *keepT) item(x interface{}) tr.E {
+	if k.keep != nil {
+		k.keep(x)
+	}
+	return itemReply(x)
+}
+
+// Keeper is implemented by every adapter.
+type Keeper interface{ SetKeep(func(interface{})) }
+
+// ItemReply decodes a kept item (list queues: int / string / *boxed / int64; priq: *pitem).
+func ItemReply(x interface{}) tr.E {
+	if it, ok := x.(*pitem); ok && it != nil {
+		return Rp("item", it.id)
+	}
+	return itemReply(x)
+}
+
+// ctxFor: a live context, or one that has already ended.
+func ctxFor(bg bool) context.Context {
+	if bg {
+		return context.Background()
+	}
+	c, cancel := context.WithCancel(context.Background())
+	cancel()
+	return c
+}
+
+func waitReply(err error) tr.E {
+	switch err {
+	case nil:
+		return Rp("ok", 0)
+	case context.Canceled:
+		return Rp("canceled", 0)
+	}
+	return Rp("err", 0)
+}
+
+// the pause of AddAnyway between two tries; it only matters when the lane stays full (the call is
+// then blocked by the property and is reported as such)
+const addwSleep = 5 * time.Millisecond
+
 type pitem struct{ id, pr int }
 
 func (p *pitem) GetPriority() int { return p.pr }
@@ -126,9 +182,9 @@ func errReply(err error, closed error, fulls ...error) tr.E {
 	return Rp("err", 0)
 }
 
-func popReply(x interface{}, err error, closed error) tr.E {
+func (k *keepT) popReply(x interface{}, err error, closed error) tr.E {
 	if err == nil {
-		return itemReply(x)
+		return k.item(x)
 	}
 	if err == closed && x == nil {
 		return Rp("closed", 0)
@@ -137,6 +193,7 @@ func popReply(x interface{}, err error, closed error) tr.E {
 }
 
 type qQ struct {
+	keepT
 	q   *pq.Q
 	rep int
 }
@@ -151,13 +208,15 @@ func (w *qQ) Do(a Act) tr.E {
 	case "pop":
 		if a.Any {
 			x, err := w.q.PopAnyway()
-			return popReply(x, err, pq.ErrClosed)
+			return w.popReply(x, err, pq.ErrClosed)
 		}
 		x, err := w.q.Pop()
-		return popReply(x, err, pq.ErrClosed)
+		return w.popReply(x, err, pq.ErrClosed)
 	case "close":
 		w.q.Close()
 		return Rp("ok", 0)
+	case "addw":
+		return errReply(w.q.AddReqAnyway(mkItem(w.rep, a.V), addwSleep), pq.ErrClosed, pq.ErrReqQFull)
 	}
 	tr.Fatal("q.Q: unsupported op %q", a.Op)
 	return nil
@@ -165,6 +224,7 @@ func (w *qQ) Do(a Act) tr.E {
 func (w *qQ) Obs() tr.E { return tr.E{"k": 0} }
 
 type asyncQ struct {
+	keepT
 	q   *aq.Q
 	rep int
 }
@@ -179,15 +239,19 @@ func (w *asyncQ) Do(a Act) tr.E {
 	case "pop":
 		if a.Any {
 			x, err := w.q.PopAnyway()
-			return popReply(x, err, aq.ErrClosed)
+			return w.popReply(x, err, aq.ErrClosed)
 		}
 		x, err := w.q.Pop()
-		return popReply(x, err, aq.ErrClosed)
+		return w.popReply(x, err, aq.ErrClosed)
 	case "close":
 		w.q.Close()
 		return Rp("ok", 0)
 	case "isclosed":
 		return Rb(w.q.IsClosed())
+	case "addw":
+		return errReply(w.q.AddAnyway(mkItem(w.rep, a.V), addwSleep), aq.ErrClosed, aq.ErrFull)
+	case "size":
+		return Rp("size", Clamp(w.q.Size()))
 	}
 	tr.Fatal("async.Q: unsupported op %q", a.Op)
 	return nil
@@ -195,6 +259,7 @@ func (w *asyncQ) Do(a Act) tr.E {
 func (w *asyncQ) Obs() tr.E { return tr.E{"closed": w.q.IsClosed()} }
 
 type muxQ struct {
+	keepT
 	q   *muxq.Q
 	rep int
 }
@@ -209,15 +274,19 @@ func (w *muxQ) Do(a Act) tr.E {
 	case "pop":
 		if a.Any {
 			x, err := w.q.PopAnyway()
-			return popReply(x, err, muxq.ErrClosed)
+			return w.popReply(x, err, muxq.ErrClosed)
 		}
 		x, err := w.q.Pop()
-		return popReply(x, err, muxq.ErrClosed)
+		return w.popReply(x, err, muxq.ErrClosed)
 	case "close":
 		w.q.Close()
 		return Rp("ok", 0)
 	case "isclosed":
 		return Rb(w.q.IsClosed())
+	case "addw":
+		return errReply(w.q.AddReqAnyway(mkItem(w.rep, a.V), addwSleep), muxq.ErrClosed, muxq.ErrQFull)
+	case "waitclose":
+		return waitReply(w.q.WaitClose(ctxFor(a.Bg)))
 	}
 	tr.Fatal("mux.Q: unsupported op %q", a.Op)
 	return nil
@@ -225,6 +294,7 @@ func (w *muxQ) Do(a Act) tr.E {
 func (w *muxQ) Obs() tr.E { return tr.E{"closed": w.q.IsClosed()} }
 
 type mqQ struct {
+	keepT
 	q   *mq.MQ
 	rep int
 }
@@ -248,10 +318,10 @@ func (w *mqQ) Do(a Act) tr.E {
 	case "pop":
 		if a.Any {
 			x, err := w.q.PopAnyway()
-			return popReply(x, err, mq.ErrClosed)
+			return w.popReply(x, err, mq.ErrClosed)
 		}
 		x, err := w.q.Pop()
-		return popReply(x, err, mq.ErrClosed)
+		return w.popReply(x, err, mq.ErrClosed)
 	case "close":
 		w.q.Close()
 		return Rp("ok", 0)
@@ -263,6 +333,15 @@ func (w *mqQ) Do(a Act) tr.E {
 		return Rb(w.q.IsClosed())
 	case "iscleared":
 		return Rb(w.q.IsCleared())
+	case "addw":
+		if a.Lane == "ctrl" {
+			return errReply(w.q.AddCtrlAnyway(mkItem(w.rep, a.V), addwSleep), mq.ErrClosed, mq.ErrCtrlQFull, mq.ErrReqQFull)
+		}
+		return errReply(w.q.AddReqAnyway(mkItem(w.rep, a.V), addwSleep), mq.ErrClosed, mq.ErrCtrlQFull, mq.ErrReqQFull)
+	case "waitclose":
+		return waitReply(w.q.WaitClose(ctxFor(a.Bg)))
+	case "waitclear":
+		return waitReply(w.q.WaitClear(ctxFor(a.Bg)))
 	}
 	tr.Fatal("mq.MQ: unsupported op %q", a.Op)
 	return nil
@@ -270,6 +349,7 @@ func (w *mqQ) Do(a Act) tr.E {
 func (w *mqQ) Obs() tr.E { return tr.E{"closed": w.q.IsClosed(), "cleared": w.q.IsCleared()} }
 
 type syncQ struct {
+	keepT
 	q   *syncq.SyncQueue
 	rep int
 }
@@ -284,14 +364,14 @@ func (w *syncQ) Do(a Act) tr.E {
 		if x == nil {
 			return Rp("closed", 0)
 		}
-		return itemReply(x)
+		return w.item(x)
 	case "trypop":
 		x, ok := w.q.TryPop()
 		switch {
 		case ok && x == nil:
 			return Rp("closed", 0)
 		case ok:
-			return itemReply(x)
+			return w.item(x)
 		case x == nil:
 			return Rp("empty", 0)
 		}
@@ -311,12 +391,13 @@ func (w *syncQ) Obs() tr.E { return tr.E{"len": w.q.Len()} }
 // in the trace; the entry handed to the real queue carries prios[rank-1], any int (64-bit) value.
 // Only the order of priorities matters to the property, and ranks fit TLC's integers.
 type priQ struct {
+	keepT
 	q     *priq.PriQueue
 	prios []int
 }
 
 // NewPri creates a priority queue whose rank r stands for priority prios[r-1] (prios ascending).
-func NewPri(rcap int, prios []int) Queue { return &priQ{priq.NewPriQueue(rcap), prios} }
+func NewPri(rcap int, prios []int) Queue { return &priQ{q: priq.NewPriQueue(rcap), prios: prios} }
 
 func (w *priQ) Do(a Act) tr.E {
 	switch a.Op {
@@ -333,6 +414,9 @@ func (w *priQ) Do(a Act) tr.E {
 			return Rp("empty", 0)
 		}
 		if it, ok := e.(*pitem); ok && it != nil {
+			if w.keep != nil {
+				w.keep(e)
+			}
 			return Rp("item", it.id)
 		}
 		return Rp("foreign", 0)
@@ -349,22 +433,22 @@ func New(kind string, ccap, rcap, rep int) Queue {
 	switch kind {
 	case "q":
 		if rcap == 0 && rep%2 == 0 {
-			return &qQ{pq.NewQ(), rep}
+			return &qQ{q: pq.NewQ(), rep: rep}
 		}
-		return &qQ{pq.NewQ(pq.WithSize(rcap)), rep}
+		return &qQ{q: pq.NewQ(pq.WithSize(rcap)), rep: rep}
 	case "async":
-		return &asyncQ{aq.NewQ(rcap), rep}
+		return &asyncQ{q: aq.NewQ(rcap), rep: rep}
 	case "mux":
-		return &muxQ{muxq.NewQ(rcap), rep}
+		return &muxQ{q: muxq.NewQ(rcap), rep: rep}
 	case "mq":
 		if ccap == 0 && rcap == 0 && rep%2 == 0 {
-			return &mqQ{mq.NewMQ(), rep}
+			return &mqQ{q: mq.NewMQ(), rep: rep}
 		}
-		return &mqQ{mq.NewMQ(mq.WithQCtrlSize(ccap), mq.WithQReqSize(rcap)), rep}
+		return &mqQ{q: mq.NewMQ(mq.WithQCtrlSize(ccap), mq.WithQReqSize(rcap)), rep: rep}
 	case "syncq":
-		return &syncQ{syncq.NewSyncQueue(), rep}
+		return &syncQ{q: syncq.NewSyncQueue(), rep: rep}
 	case "priq":
-		return &priQ{priq.NewPriQueue(rcap), nil}
+		return &priQ{q: priq.NewPriQueue(rcap)}
 	}
 	tr.Fatal("unknown kind %q", kind)
 	return nil
@@ -380,6 +464,19 @@ func Safe(q Queue, a Act) (r tr.E) {
 	return q.Do(a)
 }
 
+// Clamp renders a configuration value that TLC's 32-bit integers cannot hold: everything beyond
+// +-2^30 is logged as +-2^30 (far beyond any length a history reaches).
+func Clamp(v int) int {
+	const lim = 1 << 30
+	if v > lim {
+		return lim
+	}
+	if v < -lim {
+		return -lim
+	}
+	return v
+}
+
 // Supports reports whether the kind has the call.
 func Supports(kind string, a Act) bool {
 	switch a.Op {
@@ -391,6 +488,17 @@ func Supports(kind string, a Act) bool {
 			return kind == "mq"
 		}
 		return a.Lane == "req" && !(kind == "syncq" && a.Prior)
+	case "addw":
+		if a.Lane == "ctrl" {
+			return kind == "mq"
+		}
+		return a.Lane == "req" && (kind == "q" || kind == "async" || kind == "mux" || kind == "mq")
+	case "size":
+		return kind == "async"
+	case "waitclose":
+		return kind == "mux" || kind == "mq"
+	case "waitclear":
+		return kind == "mq"
 	case "pop":
 		return kind != "syncq" || a.Any
 	case "close":
@@ -417,6 +525,28 @@ type Model struct {
 	Ccap, Rcap int
 	Nc, Nr     int
 	Closed     bool
+	Cleared    bool
+}
+
+// Returns: the property says the call returns instead of blocking (a Pop on an empty open queue,
+// an AddAnyway on a full open lane, a WaitClose / WaitClear with a live context before the close /
+// clear block).
+func (m *Model) Returns(a Act) bool {
+	switch a.Op {
+	case "pop":
+		return m.Kind == "priq" || m.PopReturns()
+	case "addw":
+		n, c := m.Nr, m.Rcap
+		if a.Lane == "ctrl" {
+			n, c = m.Nc, m.Ccap
+		}
+		return m.Closed || c <= 0 || n < c
+	case "waitclose":
+		return !a.Bg || m.Closed
+	case "waitclear":
+		return !a.Bg || m.Cleared
+	}
+	return true
 }
 
 // Len is the number of queued items according to the property.
@@ -436,7 +566,7 @@ func (m *Model) take() {
 // Apply advances the model by one call.
 func (m *Model) Apply(a Act) {
 	switch a.Op {
-	case "add":
+	case "add", "addw":
 		if m.Closed {
 			return
 		}
@@ -444,7 +574,7 @@ func (m *Model) Apply(a Act) {
 		if a.Lane == "ctrl" {
 			n, c = &m.Nc, m.Ccap
 		}
-		if !a.Prior && c > 0 && *n >= c {
+		if (!a.Prior || a.Op == "addw") && c > 0 && *n >= c {
 			return
 		}
 		*n++
@@ -463,6 +593,10 @@ func (m *Model) Apply(a Act) {
 	case "tryclose":
 		if m.Len() == 0 {
 			m.Closed = true
+		}
+	case "tryclear":
+		if m.Closed && m.Len() == 0 {
+			m.Cleared = true
 		}
 	}
 }
